@@ -124,7 +124,7 @@ func (s *SpySigner) Sign(rand io.Reader, content []byte) ([]byte, error) {
 type SpyVerifier struct {
 	Inner cose.Verifier
 	Alg   cose.Algorithm
-	Fault string // "" or "err"
+	Fault string // "" (delegate), "err" (injected failure), "accept" (return nil without looking: lets a spy see every call)
 	Calls []SpyCall
 	Log   *[]string
 	Tag   string
@@ -137,8 +137,11 @@ func (v *SpyVerifier) Verify(content, signature []byte) error {
 	if v.Log != nil {
 		*v.Log = append(*v.Log, "verify:"+v.Tag)
 	}
-	if v.Fault == "err" {
+	switch v.Fault {
+	case "err":
 		return ErrVerifier
+	case "accept":
+		return nil
 	}
 	return v.Inner.Verify(content, signature)
 }
